@@ -131,9 +131,216 @@ def rule_like(facts):
     return r
 
 
+SIGNED = ("i8", "i16", "i32", "i64", "i128", "isize")
+UNSIGNED = ("u8", "u16", "u32", "u64", "u128", "usize")
+
+
+def _int_param_root(fn, op, at):
+    """parameter index when the operand is (a copy / deref / widening cast of) a signed integer parameter of the function"""
+    if op[0] not in ("c", "m"):
+        return None
+    o = fn.origin(op, at=at)
+    if o[0] == "arg":
+        ty = fn.locals[o[1]].replace("&", "").strip()
+        if ty in SIGNED:
+            return o[1]
+    return None
+
+
+def _nonneg_edges(fn, root):
+    """[(block, target)] switch edges that imply `param >= 0` (comparison of the parameter itself with a constant)"""
+    out = []
+    for b, i, pl, rv, ln in fn.assigns():
+        if rv[0] != "bin" or rv[1] not in ("Lt", "Le", "Gt", "Ge", "Eq") or fn.term(b)[0] != "switch":
+            continue
+        t = fn.term(b)
+        if t[1][0] not in ("c", "m") or t[1][1] != [pl[0], []]:
+            continue
+        x, y = rv[2], rv[3]
+        op = rv[1]
+        if _int_param_root(fn, y, b) == root and x[0] == "k":          # c op r  →  r op' c
+            x, y = y, x
+            op = {"Lt": "Gt", "Le": "Ge", "Gt": "Lt", "Ge": "Le", "Eq": "Eq"}[op]
+        if _int_param_root(fn, x, b) != root or y[0] != "k" or y[1].get("k") != "int":
+            continue
+        c = y[1]["v"]
+        for v, tgt in switch_edges(t):
+            truth = (v != 0) if v is not None else True
+            implies = (op == "Gt" and truth and c >= -1) or (op == "Ge" and truth and c >= 0) or (op == "Lt" and not truth and c >= 0) or \
+                      (op == "Le" and not truth and c >= -1) or (op == "Eq" and truth and c >= 0)
+            if implies:
+                out.append((b, tgt))
+    return out
+
+
+def _ge_edges(fn, root, other, at):
+    """switch edges implying `param >= other` for a subtraction `param - other` (comparison of the same two values)"""
+    def key(op, b):
+        if op[0] == "k":
+            return ("k", op[1].get("v"))
+        o = fn.origin(op, at=b)
+        if o[0] in ("arg", "local"):
+            return (o[0], o[1])
+        if o[0] == "call":
+            return ("call", o[1].bb)
+        if o[0] == "rv" and o[1][0] == "cast" and o[1][2][0] in ("c", "m"):
+            return key(o[1][2], b)
+        return ("?", id(op))
+    ko = key(other, at)
+    out = []
+    for b, i, pl, rv, ln in fn.assigns():
+        if rv[0] != "bin" or rv[1] not in ("Lt", "Le", "Gt", "Ge") or fn.term(b)[0] != "switch":
+            continue
+        t = fn.term(b)
+        if t[1][0] not in ("c", "m") or t[1][1] != [pl[0], []]:
+            continue
+        x, y, op = rv[2], rv[3], rv[1]
+        if _int_param_root(fn, y, b) == root and key(x, b) == ko:
+            x, y = y, x
+            op = {"Lt": "Gt", "Le": "Ge", "Gt": "Lt", "Ge": "Le"}[op]
+        if _int_param_root(fn, x, b) != root or key(y, b) != ko:
+            continue
+        for v, tgt in switch_edges(t):
+            truth = (v != 0) if v is not None else True
+            if (op in ("Gt", "Ge") and truth) or (op in ("Lt",) and not truth) or (op == "Le" and not truth):
+                out.append((b, tgt))
+    return out
+
+
+def rule_intarg(facts):
+    """String functions take SQL integers (counts, positions) that may be any i64. Before such an argument is negated, used in
+    overflow-checked arithmetic, or converted to an unsigned count, its sign/range has to be considered: `-count` panics for
+    i64::MIN, `(from - 1) as usize` turns 0 and negative positions into ~2^64 loop iterations (the statement never returns)."""
+    r = RuleResult("C20-INTARG", "SQL integer arguments of string functions are never negated raw, and are used in overflow-checked arithmetic or converted to "
+                   "an unsigned count only where a comparison of that argument has established it is non-negative", floor=6)
+    for rec in facts.all_fns(["glaredb_core"]):
+        if "::functions::scalar::builtin::string::" not in rec["id"] or "::tests::" in rec["id"]:
+            continue
+        fn = Fn(rec)
+        guards = {}
+
+        def guarded(root, b):
+            if root not in guards:
+                guards[root] = _nonneg_edges(fn, root)
+            return any(fn.edge_dominates(sb, tg, b) for sb, tg in guards[root])
+        for b, i, pl, rv, ln in fn.assigns():
+            kind = None
+            if rv[0] == "un" and rv[1] == "Neg":
+                root = _int_param_root(fn, rv[2], b)
+                if root:
+                    kind, ok, what = "neg", False, "negated with `-` (panics for the minimum value; use unsigned_abs / checked_neg)"
+            elif rv[0] == "bin" and rv[1] in ("SubWithOverflow", "AddWithOverflow", "MulWithOverflow") and rv[4] in SIGNED:
+                root = _int_param_root(fn, rv[2], b) or _int_param_root(fn, rv[3], b)
+                if root:
+                    kind = rv[1][:3].lower()
+                    ok = guarded(root, b)
+                    if not ok and rv[1].startswith("Sub") and _int_param_root(fn, rv[2], b) == root:
+                        ok = any(fn.edge_dominates(sb, tg, b) for sb, tg in _ge_edges(fn, root, rv[3], b))
+                    what = f"used in overflow-checked `{rv[1][:3]}` without a dominating comparison that makes it non-negative (panics near the type's limits)"
+            elif rv[0] == "cast" and rv[1] == "IntToInt" and rv[3] in SIGNED and rv[4] in UNSIGNED:
+                # the cast operand: the parameter itself or arithmetic on it
+                root = _int_param_root(fn, rv[2], b)
+                if root is None and rv[2][0] in ("c", "m"):
+                    o = fn.origin(rv[2], at=b)
+                    if o[0] == "rv" and o[1][0] == "un" and o[1][1] == "Neg":
+                        continue
+                    if o[0] == "rv" and o[1][0] in ("bin", "un"):
+                        for x in o[1][2:4]:
+                            if isinstance(x, list) and x and x[0] in ("c", "m"):
+                                root = root or _int_param_root(fn, x, b)
+                    elif o[0] == "local":
+                        # `.0` of a checked-op tuple
+                        for d in fn.defs.get(o[1], []):
+                            if d[0] == "a" and d[3][0] == "bin":
+                                for x in d[3][2:4]:
+                                    if x[0] in ("c", "m"):
+                                        root = root or _int_param_root(fn, x, b)
+                if root:
+                    kind = "to-unsigned"
+                    ok = guarded(root, b)
+                    what = f"converted to {rv[4]} with `as` without a dominating comparison that makes it non-negative (a zero/negative argument becomes a count near 2^64)"
+            if not kind:
+                continue
+            r.functions.add(fn.id)
+            r.call_sites += 1
+            r.inst({"fn": fn.id, "line": ln, "use": kind, "param": fn.local_name(root), "sign_established": ok}, ok)
+            if not ok:
+                r.violate(fn.id, f"int-arg-{kind}:{fn.local_name(root)}", f"the SQL integer argument `{fn.local_name(root)}` is {what}", rec["file"], ln)
+    return r
+
+
+def _val_key(fn, op, at):
+    """identity of a value inside one function: constant, parameter/local, or the call that produced it (through casts,
+    unwrap/unwrap_or and copies)"""
+    if op[0] == "k":
+        return ("k", op[1].get("v"))
+    o = fn.origin(op, at=at, through_calls=("::unwrap", "::unwrap_or", "::expect", "::try_from", "::try_into", "::unsigned_abs", "::branch"))
+    if o[0] in ("arg", "local"):
+        return (o[0], o[1])
+    if o[0] == "call":
+        return ("call", o[1].bb)
+    if o[0] == "const":
+        return ("k", o[1].get("v"))
+    return ("?", id(op))
+
+
+def rule_subguard(facts):
+    """Character counts and SQL counts meet in unsigned subtractions (`char_count - n`). Such a subtraction underflows (panic in
+    debug builds, a count near 2^64 in release builds) unless a comparison of *the same two values* lets only minuend >= subtrahend
+    through; comparing against a different quantity (the byte length instead of the character count) is not that comparison."""
+    r = RuleResult("C20-SUBGUARD", "every unsigned subtraction in the string functions is dominated by a comparison of the same two values that excludes "
+                   "minuend < subtrahend", floor=4)
+    for rec in facts.all_fns(["glaredb_core"]):
+        if "::functions::scalar::builtin::string::" not in rec["id"] or "::tests::" in rec["id"]:
+            continue
+        fn = Fn(rec)
+        cmps = []
+        for b, i, pl, rv, ln in fn.assigns():
+            if rv[0] == "bin" and rv[1] in ("Lt", "Le", "Gt", "Ge", "Eq", "Ne") and fn.term(b)[0] == "switch" and fn.term(b)[1][0] in ("c", "m") \
+                    and fn.term(b)[1][1] == [pl[0], []]:
+                cmps.append((b, rv[1], rv[2], rv[3]))
+        for b, i, pl, rv, ln in fn.assigns():
+            if not (rv[0] == "bin" and rv[1] in ("Sub", "SubWithOverflow") and rv[4] in UNSIGNED):
+                continue
+            r.functions.add(fn.id)
+            r.call_sites += 1
+            ka, kb = _val_key(fn, rv[2], b), _val_key(fn, rv[3], b)
+            ok = False
+            for cb, op, x, y in cmps:
+                kx, ky = _val_key(fn, x, cb), _val_key(fn, y, cb)
+                t = fn.term(cb)
+                for v, tgt in switch_edges(t):
+                    truth = (v != 0) if v is not None else True
+                    if not fn.edge_dominates(cb, tgt, b):
+                        continue
+                    if (kx, ky) == (ka, kb):          # a op b
+                        good = (op in ("Gt", "Ge") and truth) or (op in ("Lt",) and not truth) or (op == "Le" and not truth) or (op == "Eq" and truth)
+                    elif (kx, ky) == (kb, ka):        # b op a
+                        good = (op in ("Lt", "Le") and truth) or (op in ("Gt",) and not truth) or (op == "Ge" and not truth) or (op == "Eq" and truth)
+                    elif kb[0] == "k" and isinstance(kb[1], int):
+                        # constant subtrahend k: minuend compared with a constant c, or its signed source with 0
+                        c = ky[1] if ky[0] == "k" else kx[1] if kx[0] == "k" else None
+                        side = "a" if kx == ka else "b" if ky == ka else None
+                        if c is None or side is None or not isinstance(c, int):
+                            continue
+                        o = op if side == "a" else {"Lt": "Gt", "Le": "Ge", "Gt": "Lt", "Ge": "Le", "Eq": "Eq", "Ne": "Ne"}[op]
+                        k = kb[1]
+                        good = (o == "Gt" and truth and c >= k - 1) or (o == "Ge" and truth and c >= k) or (o == "Lt" and not truth and c >= k) or \
+                               (o == "Le" and not truth and c >= k - 1) or (o == "Eq" and not truth and c == 0 and k == 1) or (o == "Ne" and truth and c == 0 and k == 1) or \
+                               (o == "Lt" and truth and c <= 0 and k == 1)      # signed source < 0  ⇒ |source| >= 1
+                    else:
+                        continue
+                    ok = ok or good
+            r.inst({"fn": fn.id, "line": ln, "type": rv[4], "guarded_by_comparison_of_the_same_values": ok}, ok)
+            if not ok:
+                r.violate(fn.id, "unguarded-unsigned-sub", f"the {rv[4]} subtraction at line {ln} is not dominated by a comparison of its own two operands that excludes "
+                          "minuend < subtrahend: for multi-byte text (character count < byte length) or extreme counts it underflows", rec["file"], ln)
+    return r
+
+
 def run(ctx):
     facts = ctx["facts"]
-    return [rule_idx(facts), rule_like(facts)]
+    return [rule_idx(facts), rule_like(facts), rule_intarg(facts), rule_subguard(facts)]
 
 
 CLAIM = {
